@@ -22,6 +22,12 @@ import (
 
 const hangTimeout = 30 * time.Second
 
+var cancelledCtx = func() context.Context {
+	c, cancel := context.WithCancel(context.Background())
+	cancel()
+	return c
+}()
+
 // ---- observations ----
 
 type obs struct {
@@ -87,7 +93,9 @@ func (o obs) String() string {
 	case otherErr:
 		return "unexpected error"
 	case otherWait:
-		return "true, but WaitClose/WaitClear did not return nil"
+		return "IsClosed/IsCleared and WaitClose/WaitClear disagree"
+	case otherCtor:
+		return "constructor getter wrong (async.Q.Size / PriQueue.WaitCh)"
 	}
 	return "foreign value"
 }
@@ -98,7 +106,8 @@ const (
 	otherPanic   = 3
 	otherErr     = 4
 	otherValue   = 5
-	otherWait    = 6 // IsClosed / IsCleared said true but WaitClose / WaitClear did not return nil
+	otherWait    = 6 // IsClosed / IsCleared and WaitClose / WaitClear disagree
+	otherCtor    = 7 // async.Q.Size() is not the configured size / PriQueue.WaitCh() is nil
 )
 
 func coqZ(v int64) string {
@@ -280,6 +289,7 @@ type pipeQ struct {
 	closeFn             func()
 	isClosed            func() bool
 	waitClose           func(context.Context) error
+	ctorBad             bool
 	eClosed, eFull, eSy error
 	sh                  *shadow
 }
@@ -299,6 +309,9 @@ func newPipe(kind string, n int, noOpt bool) *pipeQ {
 		p.eClosed, p.eFull, p.eSy = q.ErrClosed, q.ErrReqQFull, q.ErrSync
 	case "async":
 		x := async.NewQ(n)
+		if want := n; x.Size() != want && !(n < 0 && x.Size() == 0) {
+			p.ctorBad = true
+		}
 		p.add, p.prior, p.addAnyway, p.pop, p.popAnyway, p.closeFn = x.Add, x.AddPrior, x.AddAnyway, x.Pop, x.PopAnyway, x.Close
 		p.isClosed = x.IsClosed
 		p.eClosed, p.eFull, p.eSy = async.ErrClosed, async.ErrFull, async.ErrSync
@@ -336,6 +349,9 @@ func (p *pipeQ) popObs(v interface{}, err error) obs {
 }
 
 func (p *pipeQ) apply(o op) (r obs, hung bool) {
+	if p.ctorBad {
+		return obs{"other", otherCtor}, false
+	}
 	switch o.code {
 	case "a":
 		r = direct(func() obs { return p.errObs(p.add(valOf(o.x))) })
@@ -370,6 +386,14 @@ func (p *pipeQ) apply(o op) (r obs, hung bool) {
 		p.sh.closed = true
 	case "i":
 		r = direct(func() obs { return flag(p.isClosed()) })
+		if r.tag == "flag" && r.v == 0 && p.waitClose != nil { // open: WaitClose can only end by its context
+			r = direct(func() obs {
+				if p.waitClose(cancelledCtx) != context.Canceled {
+					return obs{"other", otherWait}
+				}
+				return flag(false)
+			})
+		}
 		if r.tag == "flag" && r.v != 0 && p.waitClose != nil { // closed also means: the stop channel is closed, WaitClose returns at once
 			r, hung = guarded(func() obs {
 				if p.waitClose(context.Background()) != nil {
@@ -524,6 +548,14 @@ func (m *mqQ) apply(o op) (r obs, hung bool) {
 		r = direct(func() obs { return flag(m.x.TryClear()) })
 	case "ic":
 		r = direct(func() obs { return flag(m.x.IsClosed()) })
+		if r.tag == "flag" && r.v == 0 {
+			r = direct(func() obs {
+				if m.x.WaitClose(cancelledCtx) != context.Canceled {
+					return obs{"other", otherWait}
+				}
+				return flag(false)
+			})
+		}
 		if r.tag == "flag" && r.v != 0 {
 			r, hung = guarded(func() obs {
 				if m.x.WaitClose(context.Background()) != nil {
@@ -534,6 +566,14 @@ func (m *mqQ) apply(o op) (r obs, hung bool) {
 		}
 	case "il":
 		r = direct(func() obs { return flag(m.x.IsCleared()) })
+		if r.tag == "flag" && r.v == 0 {
+			r = direct(func() obs {
+				if m.x.WaitClear(cancelledCtx) != context.Canceled {
+					return obs{"other", otherWait}
+				}
+				return flag(false)
+			})
+		}
 		if r.tag == "flag" && r.v != 0 {
 			r, hung = guarded(func() obs {
 				if m.x.WaitClear(context.Background()) != nil {
@@ -660,10 +700,20 @@ type pent struct {
 
 func (p *pent) GetPriority() int { return p.pri }
 
-type priQ struct{ x *priq.PriQueue }
+type priQ struct {
+	x       *priq.PriQueue
+	ctorBad bool
+}
 
-func newPri(n int) *priQ { return &priQ{x: priq.NewPriQueue(n)} }
+func newPri(n int) *priQ {
+	p := &priQ{x: priq.NewPriQueue(n)}
+	p.ctorBad = p.x.WaitCh() == nil
+	return p
+}
 func (p *priQ) apply(o op) (r obs, hung bool) {
+	if p.ctorBad {
+		return obs{"other", otherCtor}, false
+	}
 	switch o.code {
 	case "u":
 		r = direct(func() obs {
